@@ -145,10 +145,17 @@ ASTNode *RecursiveParser::parseProgram() {
         // second half of a split '>>' has been consumed (line / column of a
         // token are for diagnostics only and are not monotone for tokens that
         // span lines)
+        // (the second number identifies the parser instance: imported
+        // modules are parsed by parsers of their own, whose iterations are
+        // interleaved with those of the importing parser in the trace)
+        static int verif_parser_count = 0;
+        if (verif_parser_id_ == 0) {
+            verif_parser_id_ = ++verif_parser_count;
+        }
         cb_verif_trace("parse_iter %ld %d",
                        static_cast<long>(lexer_.verif_offset()) * 2 +
                            (has_split_gt_token_ ? 0 : 1),
-                       0);
+                       verif_parser_id_);
 #endif
         ASTNode *stmt = parseStatement();
         if (stmt != nullptr) {
